@@ -235,6 +235,7 @@ def oracle(case, stats):
             stats.count("primed-by-look-alike-replacement")
     raised = None
     new = None
+    snap = (mf.snapshot(s), mf.snapshot(sp), mf.snapshot(rp))
     try:
         new, k = mf.replace(s, sp, rp, atol, case["hints"], case["seeds"], replace_fraction=f,
                             replace_all=case["replace_all"], return_num_matches=True,
@@ -247,6 +248,12 @@ def oracle(case, stats):
         raised = e
         if f == 1.0 and not avoidable:
             raise Violation("wrong-exception-type", "%s: %r instead of the dedicated overlap error" % (type(e).__name__, e))
+    # --- refused or not, the caller's objects are as they were ("refused, never silently corrupted")
+    now = (mf.snapshot(s), mf.snapshot(sp), mf.snapshot(rp))
+    if now != snap:
+        bad = [n for n, a, b in zip(("structure", "search pattern", "replacement pattern"), snap, now) if a != b]
+        raise Violation("inputs-modified", "%s modified by a call that %s" % (", ".join(bad), "was refused" if raised is not None else "returned"))
+    stats.count("inputs-intact-after:%s" % ("refusal" if raised is not None else "return"))
     # --- must / must not raise
     if raised is not None:
         if case["ignore"]:
